@@ -84,7 +84,7 @@ def reads(pi: int, ci: int, r1: int, r2: int, hs: int, x: int, y: int) -> bool:
     nread = len(ops.readers(which))
     r1 = pick(list(range(nread)), r1)
     if hlib.TIER == "thorough":
-        r2 = pick(list(range(nread)), r2)
+        r2 = None if r1 is None else pick([(r1 + 7) % nread, (r1 + 1) % nread, 0], r2)  # derived / next / first table entry
         hs = pick([0, 1, 2, 3], hs)
     else:
         r2 = None if r1 is None else (r1 + 7) % nread  # second read derived from the first
@@ -174,7 +174,7 @@ def reads(pi: int, ci: int, r1: int, r2: int, hs: int, x: int, y: int) -> bool:
 
 
 def plan(tier):
-    return [{"fn": "reads", "nparts": len(CELLS), "timeout": 300 if tier == "quick" else 1500}]
+    return [{"fn": "reads", "nparts": len(CELLS), "timeout": 300 if tier == "quick" else 900}]
 
 
 def smoke(tier):
@@ -197,7 +197,7 @@ FUNCTIONS = [
     "synced_collections.buffers.memory_buffered_collection:SharedMemoryFileBufferedCollection._flush",
     "synced_collections.backends.collection_json:JSONCollection._load_from_resource",
 ]
-BOUNDS = {"quick": {"classes": 18, "pre_histories": PRE, "contexts": CTXS, "reads": "quick: first read any of the 18 table entries on root or nested child, second read derived; thorough: both free"}}
+BOUNDS = {"quick": {"classes": 18, "pre_histories": PRE, "contexts": CTXS, "reads": "quick: first read any of the 18 table entries on root or nested child, second read derived; thorough: second read from three table entries, both reads on root or nested child"}}
 BOUNDS["thorough"] = BOUNDS["quick"]
 ASSUMPTIONS = ["environment models of vf/env_model.py; the JSON codec model is order-sensitive for object keys and type-exact for leaves, as json.dumps is", "for Redis/MongoDB/Zarr the write counters of the fake stores stand for the backend"]
 OUTSIDE = ["more than two reads per session", "context nesting deeper than 2"]
